@@ -236,6 +236,19 @@ func permitted(pre *qmodel.Model, op qmodel.Op, oa, ob *qmodel.Obs, sa, sb []qmo
 // suppresses only that cause): the memory backend refuses with queue-full because it also counts delivered rows
 // against max_depth while delivered retention is on, where SQLite (queued+leased only) goes on.
 func knownCause(pre *qmodel.Model, op qmodel.Op, mem, sql *qmodel.Obs) string {
+	if (op.Kind == "enq" || op.Kind == "enqb") && pre.Cfg.DropOldest && pre.Cfg.MaxDepth > 0 {
+		// above max_depth (only reachable after an operator requeue/resume lifted the active count): the memory
+		// backend evicts until the count is below the limit, SQLite's single Enqueue evicts exactly one
+		active := 0
+		for _, it := range pre.Items {
+			if it.State == qmodel.Queued || it.State == qmodel.Leased {
+				active++
+			}
+		}
+		if active > pre.Cfg.MaxDepth {
+			return "drop-count-above-max_depth-after-operator-requeue:" + op.Kind
+		}
+	}
 	if (op.Kind == "enq" || op.Kind == "enqb") && mem.Err == qmodel.Full && sql.Err != qmodel.Full &&
 		pre.Cfg.MaxDepth > 0 && pre.Cfg.DeliveredMaxAge > 0 {
 		active, delivered := 0, 0
